@@ -12,8 +12,18 @@ from .. import indicators as X
 def targeted_pair(rng):
     """Pairs whose names or helper names are close to one another."""
     p = rng.randint(2, 9)
-    t = rng.choice(["substring", "atr-tr", "tr-atr", "bbands-sma", "bbands-stdev", "supertrend-tr", "kc-atr"])
+    t = rng.choice(["substring", "atr-tr", "tr-atr", "bbands-sma", "bbands-stdev", "supertrend-tr", "kc-atr",
+                    "name-prefix", "name-prefix"])
     mk = lambda kind, **kw: {"kind": kind, "kw": kw, "round_value": 4}
+    if t == "name-prefix":
+        # B's name is A's name plus "_<suffix>": B's helper series start with A's name too
+        k = rng.choice(["RSI", "STDEV", "SUPERTREND", "ADX", "STOCH", "TSI", "MACD", "BBANDS", "KC", "HMA", "ATR", "VWAP", "EMA"])
+        a = X.gen_spec(rng, k, inputs=("close",))
+        b = {"kind": k, "kw": dict(a["kw"]), "round_value": 4, "name_suffix": rng.choice(["hi", "b", "x2"])}
+        if k in X.HAS_INPUT:
+            b["kw"]["input_value"] = rng.choice(["high", "close"])
+        a["round_value"] = 4
+        return (a, b, t) if rng.random() < 0.7 else (b, a, t)
     if t == "substring":
         k = rng.choice(["EMA", "SMA", "WMA", "RMA"])
         return mk(k, period=p, input_value="close"), mk(k, period=p * 10 + rng.randint(0, 9), input_value="close"), t
@@ -36,7 +46,7 @@ def falsify(ctx, case: Dict) -> bool:
     try:
         with core.time_limit(40):
             def fresh(specs):
-                ms = [hx.member(s) for s in specs]
+                ms = [hx.member(s, case.get("tf")) for s in specs]
                 h = hx.hexital(rows[:split], ms)
                 h.calculate()
                 for r in rows[split:]:
@@ -68,7 +78,7 @@ def falsify(ctx, case: Dict) -> bool:
             if bad is None and case.get("mid") is not None:
                 # the same operations applied in the middle of the stream, candles keep arriving after them
                 for order in ((a_spec, b_spec), (b_spec, a_spec)):
-                    ms = [hx.member(s_) for s_ in order]
+                    ms = [hx.member(s_, case.get("tf")) for s_ in order]
                     mb_ = ms[order.index(b_spec)]
                     ma_ = ms[order.index(a_spec)]
                     h = hx.hexital(rows[:split], ms)
@@ -107,7 +117,9 @@ def run(ctx: core.Ctx) -> int:
     cases = [c["case"] for c in E.load_corpus("C13")]
     kinds = [k for k in X.KINDS if k not in ("AMORPH", "COUNTER")]
     for _ in range(ctx.n(220, 2500)):
-        n = rng.randint(6, 60 if not ctx.thorough else 150)
+        # both members on one collapsing timeframe of the Hexital (they share that manager's candles)
+        tf = rng.choice(["T2", "T5", "T5", "T10"]) if rng.random() < 0.3 else None
+        n = rng.randint(6, 60 if not ctx.thorough else 150) if tf is None else rng.randint(20, 160)
         rows = X.gen_rows(rng, n, late=0)
         if rng.random() < 0.5:
             a, b, target = targeted_pair(rng)
@@ -121,13 +133,15 @@ def run(ctx: core.Ctx) -> int:
         if "remove" in ops:
             ops = [o for o in ops if o != "remove"] + ["remove"]
         split = rng.choice([0, 1, n // 2, n])
-        cases.append({"a": a, "b": b, "rows": rows, "split": split, "ops": ops, "target": target,
+        cases.append({"a": a, "b": b, "rows": rows, "split": split, "ops": ops, "target": target, "tf": tf,
                       "mid": rng.randrange(0, n - split) if n - split > 0 and rng.random() < 0.7 else None})
     for c in cases:
         ctx.count("eval_falsifier")
         falsify(ctx, c)
         key = c.get("target") or "random-pair"
         dist[key] = dist.get(key, 0) + 1
+        if c.get("tf"):
+            dist["shared-timeframe"] = dist.get("shared-timeframe", 0) + 1
         ctx.seen({"a": c["a"], "b": c["b"], "rows": c["rows"], "ops": c["ops"]}, len(c["rows"]) >= 6)
         if len(ctx.samples) < 3:
             ctx.sample({"a": c["a"], "b": c["b"], "n": len(c["rows"]), "ops": c["ops"], "target": c.get("target")})
